@@ -36,6 +36,10 @@ func genC03(g *G, n int, out io.Writer) {
 		base := genC01Graph(g, i, true)
 		c := C03Case{Op: "c03", Id: i, Atoms: base.Atoms, Paths: base.Paths, Graph: base.Graph}
 		c.ProfileName = g.pick([]string{"P", "warning", "info", "violation", "My Profile 1.0", "validations", "profile"})
+		if g.coin(0.4) {
+			// any text is a name: pieces from the hostile alphabet (quotes, escapes, separators, BMP and astral code points)
+			c.ProfileName = g.pick([]string{"P", "Règles ", "规则 "}) + g.hostile(4)
+		}
 		// 0..5 validations, each a small formula; names may look like keys of the profile language
 		nv := g.n(6)
 		rg := &ruleGen{g: g, nAtoms: len(c.Atoms), nPaths: len(c.Paths), used: map[string]int{}}
